@@ -189,3 +189,189 @@ Proof.
   - intros t' Ht. apply nmem_In. now apply Hs.
   - intros d Hd. apply N.ltb_lt. now apply Hr.
 Qed.
+
+(* ---------- rule sets with their bookkeeping (scopedGoRuleSet): buckets, the syntax-rule counter that gates the
+   walk of a run, the comment rules; loading a file, merging (mergeRuleSets / appendScopedRuleSet), Engine.Load ---------- *)
+Record rset := { rs_buckets : buckets; rs_cnum : N; rs_comments : list N }.
+
+(* how appendScopedRuleSet maintains the counter of the destination *)
+Inductive count_mode := CountPerBucket   (* dst += len(rules) for every bucket of src *)
+                      | CountTotal       (* dst += src.categorizedNum *)
+                      | CountLast.       (* dst = src.categorizedNum *)
+Definition count_mode_ok (m : count_mode) : bool := match m with CountLast => false | _ => true end.
+Inductive comment_mode := CommentsAppend | CommentsLast.
+
+Fixpoint count_buckets (nb : nat) (b : buckets) : N :=
+  match nb with O => 0%N | S k => (count_buckets k b + N.of_nat (length (b (N.of_nat k))))%N end.
+
+Lemma count_buckets_zero nb b : count_buckets nb b = 0%N -> forall t, (t < N.of_nat nb)%N -> b t = [].
+Proof.
+  induction nb as [|k IH]; intros H t Ht; [lia|]. cbn [count_buckets] in H.
+  assert (count_buckets k b = 0%N /\ length (b (N.of_nat k)) = O) as [H1 H2] by lia.
+  destruct (N.eq_dec t (N.of_nat k)) as [->|Hne]; [now apply length_zero_iff_nil|]. apply IH; [assumption|lia].
+Qed.
+
+Section RuleSets.
+Variable place_err : list N.
+Variable place_fan : list (N * list N).
+Variable cmode : count_mode.
+Variable kmode : comment_mode.
+Variable nb : nat.                            (* length of the bucket array *)
+
+Local Notation dests := (dests place_err place_fan).
+Local Notation load := (load place_err place_fan).
+
+Definition empty_set : rset := {| rs_buckets := empty; rs_cnum := 0; rs_comments := [] |}.
+
+(* loadSyntaxRule / loadCommentRule on a fresh set: one count per placed syntax rule *)
+Definition load_set (rs : list rule) (crs : list N) : rset :=
+  {| rs_buckets := load rs empty; rs_cnum := N.of_nat (length rs); rs_comments := crs |}.
+
+Definition merge2 (dst src : rset) : rset :=
+  {| rs_buckets := merge (rs_buckets dst) (rs_buckets src);
+     rs_cnum := match cmode with
+                | CountPerBucket => rs_cnum dst + count_buckets nb (rs_buckets src)
+                | CountTotal => rs_cnum dst + rs_cnum src
+                | CountLast => rs_cnum src
+                end%N;
+     rs_comments := match kmode with CommentsAppend => rs_comments dst ++ rs_comments src | CommentsLast => rs_comments src end |}.
+
+(* mergeRuleSets: into a fresh empty set, in argument order *)
+Definition merge_all (sets : list rset) : rset := fold_left merge2 sets empty_set.
+
+(* the walk of a run happens only if the counter is not zero *)
+Definition gate_ok (s : rset) : Prop := rs_cnum s = 0%N -> forall t, (t < N.of_nat nb)%N -> rs_buckets s t = [].
+(* s holds exactly the syntax rules rs (in load order, per bucket) and the comment rules crs *)
+Definition repr (s : rset) (rs : list rule) (crs : list N) : Prop :=
+  (forall t, rs_buckets s t = load rs empty t) /\ rs_comments s = crs.
+
+(* every rule set an engine can hold: loaded from a file, or merged from such sets (several Load calls, bundle imports,
+   bundles of bundles) *)
+Inductive built : rset -> list rule -> list N -> Prop :=
+| built_empty : built empty_set [] []
+| built_load rs crs : built (load_set rs crs) rs crs
+| built_merge a ra ca b rb cb : built a ra ca -> built b rb cb -> built (merge2 a b) (ra ++ rb) (ca ++ cb).
+
+Lemma load_app rs1 rs2 t : load (rs1 ++ rs2) empty t = load rs1 empty t ++ load rs2 empty t.
+Proof. rewrite !load_is_filter. cbn [empty app]. apply filter_app. Qed.
+
+Theorem built_ok s rs crs : count_mode_ok cmode = true -> kmode = CommentsAppend -> built s rs crs -> gate_ok s /\ repr s rs crs.
+Proof.
+  intros Hc Hk Hb. induction Hb as [|rs crs|a ra ca b rb cb Ha [Ga [Ra Ca]] Hb' [Gb [Rb Cb]]].
+  - split; [intros _ t _; reflexivity|split; reflexivity].
+  - split; [|split; reflexivity]. intros H t _. cbn [load_set rs_cnum rs_buckets] in *.
+    destruct rs; [reflexivity|cbn [length] in H; lia].
+  - split; [|split].
+    + intros H t Ht. cbn [merge2 rs_cnum rs_buckets] in *. unfold merge.
+      destruct cmode; [| |discriminate].
+      * assert (rs_cnum a = 0%N /\ count_buckets nb (rs_buckets b) = 0%N) as [H1 H2] by lia.
+        rewrite (Ga H1 t Ht), (count_buckets_zero _ _ H2 t Ht). reflexivity.
+      * assert (rs_cnum a = 0%N /\ rs_cnum b = 0%N) as [H1 H2] by lia. now rewrite (Ga H1 t Ht), (Gb H2 t Ht).
+    + intros t. cbn [merge2 rs_buckets]. unfold merge. now rewrite Ra, Rb, load_app.
+    + cbn [merge2 rs_comments]. now rewrite Hk, Ca, Cb.
+Qed.
+
+Lemma merge_all_built : forall sets acc racc cacc rss css,
+  built acc racc cacc -> Forall2 (fun s p => built s (fst p) (snd p)) sets (combine rss css) -> length rss = length css ->
+  built (fold_left merge2 sets acc) (racc ++ concat rss) (cacc ++ concat css).
+Proof.
+  induction sets as [|s sets IH]; intros acc racc cacc rss css Hacc HF Hlen.
+  - inversion HF as [Hc|]. destruct rss, css; try discriminate. cbn. now rewrite !app_nil_r.
+  - destruct rss as [|r rss], css as [|c css]; try discriminate; inversion HF; subst.
+    cbn [fold_left concat]. rewrite !app_assoc. apply IH; [|assumption|cbn in Hlen; lia].
+    now apply built_merge.
+Qed.
+
+(* ---- the executable load history (one level of bundle imports), for the correspondence runs ---- *)
+(* LoadFile: the file's own groups, then -- if it imports bundles -- mergeRuleSets (own :: sets of the bundle files) *)
+Definition file_set (own : list rule) (cown : list N) (imported : list (list rule * list N)) : rset :=
+  match imported with
+  | [] => load_set own cown
+  | _ => merge_all (load_set own cown :: map (fun p => load_set (fst p) (snd p)) imported)
+  end.
+(* Engine.Load: the first file's set is taken as it is, every further one is merged after the present one *)
+Definition engine_load (e : option rset) (fs : rset) : option rset :=
+  match e with None => Some fs | Some s => Some (merge_all [s; fs]) end.
+
+Definition file_desc := (list rule * list N * list (list rule * list N))%type.
+Definition file_rules (f : file_desc) : list rule := fst (fst f) ++ concat (map fst (snd f)).
+Definition file_comments (f : file_desc) : list N := snd (fst f) ++ concat (map snd (snd f)).
+Definition engine_of (files : list file_desc) : option rset :=
+  fold_left (fun e f => engine_load e (file_set (fst (fst f)) (snd (fst f)) (snd f))) files None.
+
+Lemma file_set_built f : built (file_set (fst (fst f)) (snd (fst f)) (snd f)) (file_rules f) (file_comments f).
+Proof.
+  destruct f as [[own cown] imported]. unfold file_set, file_rules, file_comments. cbn [fst snd].
+  destruct imported as [|i imported]; [cbn; rewrite !app_nil_r; apply built_load|].
+  unfold merge_all. cbn [fold_left]. set (l := i :: imported).
+  change (built (fold_left merge2 (map (fun p => load_set (fst p) (snd p)) l) (merge2 empty_set (load_set own cown)))
+                (own ++ concat (map fst l)) (cown ++ concat (map snd l))).
+  apply merge_all_built.
+  - apply (built_merge empty_set [] [] (load_set own cown) own cown); [apply built_empty|apply built_load].
+  - clearbody l. clear. induction l as [|p l IH]; cbn; constructor; [apply built_load|exact IH].
+  - now rewrite !map_length.
+Qed.
+
+Lemma engine_fold_built files : forall s re ce, built s re ce ->
+  exists s', fold_left (fun e f => engine_load e (file_set (fst (fst f)) (snd (fst f)) (snd f))) files (Some s) = Some s' /\
+             built s' (re ++ concat (map file_rules files)) (ce ++ concat (map file_comments files)).
+Proof.
+  induction files as [|f files IH]; intros s re ce Hs.
+  - exists s. cbn. now rewrite !app_nil_r.
+  - cbn [fold_left map concat engine_load]. rewrite !app_assoc. apply IH.
+    unfold merge_all. cbn [fold_left]. apply built_merge; [|apply file_set_built].
+    apply (built_merge empty_set [] [] s re ce); [apply built_empty|assumption].
+Qed.
+
+(* whatever the sequence of Load calls: the engine's rule set is a built one, holding the files' rules in load order *)
+Theorem engine_of_built f files :
+  exists s, engine_of (f :: files) = Some s /\
+            built s (concat (map file_rules (f :: files))) (concat (map file_comments (f :: files))).
+Proof.
+  unfold engine_of. cbn [fold_left engine_load map concat]. apply engine_fold_built. apply file_set_built.
+Qed.
+
+(* ---- a run over a rule set: the walk is skipped when the counter is zero ---- *)
+Variable multi : N -> bool.
+Variable accumulates : bool.
+Variable mdata : Type.
+Variable M : rule -> N -> list (mdata * bool).
+Variable compat : N -> list N.
+Variable gated : bool.                        (* rulesRunner.run walks the file only if the counter is not zero *)
+
+Definition run_set (s : rset) (offers : list (N * N)) : list (rule * mdata) :=
+  if gated && N.eqb (rs_cnum s) 0 then [] else run_file multi accumulates mdata M (rs_buckets s) offers.
+
+Lemma run_file_ext b1 b2 offers : (forall o, In o offers -> b1 (snd o) = b2 (snd o)) ->
+  run_file multi accumulates mdata M b1 offers = run_file multi accumulates mdata M b2 offers.
+Proof.
+  induction offers as [|o l IH]; intros H; [reflexivity|]. unfold run_file in *. cbn [flat_map].
+  rewrite (H o (or_introl eq_refl)). f_equal. apply IH. intros; apply H; now right.
+Qed.
+
+Theorem run_set_spec s rs crs offers :
+  gate_ok s -> repr s rs crs ->
+  (forall o, In o offers -> (snd o < N.of_nat nb)%N) ->
+  accumulates = true ->
+  (forall r, In r rs -> forall t', In t' (compat (r_tag r)) -> loadable place_err place_fan r = true -> In t' (dests r)) ->
+  (forall r, In r rs -> loadable place_err place_fan r = true) ->
+  (forall r o, In r rs -> In o offers -> M r (fst o) <> [] -> In (snd o) (compat (r_tag r))) ->
+  run_set s offers = spec_file multi mdata M rs offers.
+Proof.
+  intros Hg [Hr _] Hoff Hacc Hplace Hload Hcompat.
+  rewrite <- (run_file_spec place_err place_fan multi accumulates mdata M compat rs offers Hacc Hplace Hload Hcompat).
+  unfold run_set. destruct (gated && N.eqb (rs_cnum s) 0) eqn:E.
+  - apply andb_prop in E as [_ E]. apply N.eqb_eq in E. rewrite (run_file_ext (load rs empty) (fun _ => [])).
+    + clear. induction offers as [|o l IH]; [reflexivity|]. unfold run_file in *. cbn [flat_map run_rules app]. exact IH.
+    + intros o Ho. rewrite <- Hr. apply Hg; [assumption|]. now apply Hoff.
+  - apply run_file_ext. intros o _. apply Hr.
+Qed.
+End RuleSets.
+
+(* a merge that keeps only the last set's counter skips the walk although rules are loaded *)
+Lemma count_last_refuted :
+  let a := load_set [] [] [ {| r_id := 0; r_tag := 5 |} ] [] in
+  let b := load_set [] [] [] [7%N] in
+  let s := merge2 CountLast CommentsAppend 49 a b in
+  rs_cnum s = 0%N /\ rs_buckets s 5%N <> [].
+Proof. split; [reflexivity|discriminate]. Qed.
